@@ -49,7 +49,7 @@ def fresh_roundtrip(store, user, d, rng, tag):
     """a new process: new backend object, new Repository; unlock, snapshot a tree, restore it, compare"""
     w = harness.World(store=store, concurrent=2)
     w.users['u'] = user
-    tree = {'a.bin': rng.randbytes(700), 'e/empty': b'', 'e/z.txt': bytes(300), 'b.bin': rng.randbytes(5)}
+    tree = {'a.bin': rng.randbytes(6000), 'e/empty': b'', 'e/z.txt': bytes(300), 'b.bin': rng.randbytes(5)}
     src = d / ('src' + tag)
     harness.write_tree(src, tree)
     o = w.snapshot('u', [src])
@@ -133,6 +133,8 @@ def classify(e):
             return 'blake2b digest length is not validated at init'
         if c in ('c-min-0', 'c-min-neg', 'c-max-str', 'c-float'):
             return 'chunker lengths are not validated at init'
+        if h == 'h-blake2b-1':
+            return 'digest so short that distinct chunks collide'
     return 'any'
 
 
